@@ -525,6 +525,14 @@ def do_append(X, ins):
     X.heap.set(key, nh)
     r = w.fresh('append', S)
     X.hyp(r == res)
+    # consequences of the definition above, stated over the result slice with a trigger on its elements
+    # (the form contracts use): element j of the result is element j of s, or element j-len(s) of t
+    ixf = w.uf('ix', I, I, I)
+    w.ix_used = True
+    el_r = nh[S.arr(r)][ixf(S.off(r), j)]
+    X.hyp(z3.ForAll([j], z3.Implies(z3.And(j >= 0, j < n + k),
+                                    el_r == z3.If(j < n, olds[ixf(so, j)], oldt[ixf(to, j - n)])), patterns=[el_r]))
+    X.hyp(z3.And(S.len(r) == n + k, S.cap(r) >= n + k, z3.Implies(n + k > 0, S.arr(r) != 0)))
     X.env[ins['name']] = r
 
 
